@@ -188,7 +188,7 @@ def _main(prop: str, tier: str, seed: int, a: Any) -> int:
 					saved_requires.setdefault(c.key, list(c.requires))
 					c.requires = c.requires + [f'not ({ex})']
 	z3_ms = 10000 if tier == 'quick' else 30000
-	cvc5_ms = 60000 if tier == 'quick' else 180000
+	cvc5_ms = 30000 if tier == 'quick' else 120000
 	rep = run(prop, contracts, lemmas, z3_ms, cvc5_ms)
 	gens: dict[str, Any] = getattr(mod, 'TWINS', {})
 	violations: list[Violation] = []
